@@ -300,6 +300,10 @@ func (o *Obligation) Text(solver string) string {
 	b.WriteString(fix(body))
 	if o.consistencyOnly {
 		// vacuity guard: the assumptions of this obligation alone (no path guard, no goal) must be satisfiable
+		if o.reachOnly && g != "true" {
+			// reachability variant: the path to the obligation must be feasible under the assumptions
+			b.WriteString("(assert " + fix(g) + ")\n")
+		}
 		b.WriteString("(check-sat)\n")
 		return b.String()
 	}
